@@ -172,7 +172,7 @@ def PA (lookup : List Nat → Option Nat) (kind : Kind) (n : Nat) : Prop :=
 def PF (lookup : List Nat → Option Nat) (kind : Kind) (n : Nat) : Prop :=
   ∀ (lvl : Nat) (cs : List Nat) (off : Nat) (echo : List Nat) (f : Piece) (rest : List Nat) (off' : Nat),
     Spec.field lookup true kind.isRaw n lvl cs off = some (echo, f, rest, off') → NoSurr cs →
-    rest <:+ cs ∧ rest.length + 2 ≤ cs.length ∧ (lvl ≥ 1 → echo = []) ∧
+    rest <:+ cs ∧ rest.length + 2 ≤ cs.length ∧
     (∃ t o c sp, f = .field t o c sp) ∧
     ∀ fuel, 2 * cs.length + 4 ≤ fuel →
       ∃ pcs, fvLoop lookup kind fuel lvl off FvState.init cs off = .ok (pcs, rest, off') ∧ PiecesOf pcs echo f
@@ -183,10 +183,10 @@ section suffix
 variable (lookup : List Nat → Option Nat) (kind : Kind)
 
 theorem eq_sim (lvl location : Nat) (r0 : List Nat) (sd : Option (List Nat)) (r1 : List Nat)
-    (h : Spec.eqPart r0 = (sd, r1)) (hout : Spec.eqOutside lvl sd = false)
+    (h : Spec.eqPart r0 = (sd, r1)) (hout : Spec.eqOutside sd = false)
     (hnn : ∀ r', r0 = 61 :: r' → r'.head? ≠ some 61)
     (st : FvState) (loc : Nat) (hd : st.delims = []) (hs : st.selfDoc = false) (ht : st.trailing = []) :
-    r1 <:+ r0 ∧ (sd.isSome → lvl = 0) ∧ ∃ j, j + r1.length ≤ r0.length ∧ ∀ fuel,
+    r1 <:+ r0 ∧ ∃ j, j + r1.length ≤ r0.length ∧ ∀ fuel,
       fvLoop lookup kind (fuel + j) lvl location st r0 loc =
         fvLoop lookup kind fuel lvl location
           { st with selfDoc := sd.isSome, trailing := sd.getD [] } r1 (loc + Spec.eqBytes sd) := by
@@ -194,8 +194,8 @@ theorem eq_sim (lvl location : Nat) (r0 : List Nat) (sd : Option (List Nat)) (r1
   split at h
   · rename_i r
     cases h
-    simp only [Spec.eqOutside, Bool.or_eq_false_iff, decide_eq_false_iff_not] at hout
-    obtain ⟨hcr, hl⟩ := hout
+    simp only [Spec.eqOutside] at hout
+    have hcr := hout
     have hsplit := take_drop_takeWhile Spec.isSpace r
     have hws : (r.takeWhile Spec.isSpace).all isBlankAfterEq = true := by
       have hsp := PV.C06.takeWhile_all Spec.isSpace r
@@ -210,7 +210,7 @@ theorem eq_sim (lvl location : Nat) (r0 : List Nat) (sd : Option (List Nat)) (r1
     generalize r.takeWhile Spec.isSpace = ws at hws hsplit ⊢
     generalize r.drop ws.length = rr at hsplit ⊢
     subst hsplit
-    refine ⟨?_, fun _ => by omega, ws.length + 1, ?_, ?_⟩
+    refine ⟨?_, ws.length + 1, ?_, ?_⟩
     · exact (List.suffix_append _ _).trans (List.suffix_cons _ _)
     · simp; omega
     · intro fuel
@@ -220,7 +220,7 @@ theorem eq_sim (lvl location : Nat) (r0 : List Nat) (sd : Option (List Nat)) (r1
       · simp [ht]
       · simp [Spec.eqBytes, ulen_spaces _ hws]; omega
   · cases h
-    refine ⟨List.suffix_refl _, fun h => by simp at h, 0, by simp, ?_⟩
+    refine ⟨List.suffix_refl _, 0, by simp, ?_⟩
     intro fuel
     have : ({ st with selfDoc := false, trailing := [] } : FvState) = st := by
       cases st; simp at hs ht ⊢; exact ⟨hs, ht⟩
@@ -319,10 +319,10 @@ theorem PF_step (lookup : List Nat → Option Nat) (kind : Kind) (n : Nat) (hpa 
           generalize hep : Spec.eqPart r0 = ep at h
           obtain ⟨sd, r1⟩ := ep
           simp only at h
-          by_cases hout : Spec.eqOutside lvl sd = true
+          by_cases hout : Spec.eqOutside sd = true
           · simp [hout] at h
           · simp only [hout, Bool.false_eq_true, and_false, if_false] at h
-            have hout' : Spec.eqOutside lvl sd = false := by simpa using hout
+            have hout' : Spec.eqOutside sd = false := by simpa using hout
             cases hcp : Spec.convPart r1 with
             | none => simp [hcp] at h
             | some p =>
@@ -344,7 +344,7 @@ theorem PF_step (lookup : List Nat → Option Nat) (kind : Kind) (n : Nat) (hpa 
                   -- the model, phase by phase
                   let st1 : FvState := { FvState.init with expr := FvState.init.expr ++ text, delims := [] }
                   have hns0 : NoSurr r0 := hns.suffix (by rw [hcs]; exact List.suffix_append _ _)
-                  obtain ⟨hs1, hlv, j1, hj1, hm1⟩ := eq_sim lookup kind lvl off r0 sd r1 hep hout'
+                  obtain ⟨hs1, j1, hj1, hm1⟩ := eq_sim lookup kind lvl off r0 sd r1 hep hout'
                     (fun r' e => by
                       rw [hr0] at e; cases e
                       exact hnn (Or.inr rfl))
@@ -365,13 +365,9 @@ theorem PF_step (lookup : List Nat → Option Nat) (kind : Kind) (n : Nat) (hpa 
                     cases text with
                     | nil => exact absurd rfl htne
                     | cons a l => simp
-                  refine ⟨?_, by omega, ?_, ⟨_, _, _, _, rfl⟩, ?_⟩
+                  refine ⟨?_, by omega, ⟨_, _, _, _, rfl⟩, ?_⟩
                   · have : r4 <:+ r3 := by rw [hr3]; exact List.suffix_cons _ _
                     exact (((this.trans hs3).trans hs2).trans hs1).trans (by rw [hcs]; exact List.suffix_append _ _)
-                  · intro hl1'
-                    cases sd with
-                    | none => rfl
-                    | some ws => exact absurd (hlv rfl) (by omega)
                   · intro fuel hfuel
                     refine ⟨fvResult st4 off, ?_, ?_⟩
                     · -- chain the phases
